@@ -186,8 +186,12 @@ def pyfftw_call(array_in, array_out, direction='forward', axes=None,
         # Plan on a scratch array, also if `array_in` is already a copy,
         # since planning overwrites the data that is transformed afterwards
         plan_arr_in = np.empty_like(array_in)
+        # For in-place transforms, planning on `array_out` would destroy
+        # the input as well
+        plan_arr_out = plan_arr_in if array_out is array_in else array_out
     else:
         plan_arr_in = array_in
+        plan_arr_out = array_out
 
     # Do not allow the plan to destroy its input (`FFTW_DESTROY_INPUT`), it
     # is executed on the caller's array
@@ -207,7 +211,8 @@ def pyfftw_call(array_in, array_out, direction='forward', axes=None,
                 threads = cpu_count()
 
         fftw_plan = pyfftw.FFTW(
-            plan_arr_in, array_out, direction=_flag_odl_to_pyfftw(direction),
+            plan_arr_in, plan_arr_out,
+            direction=_flag_odl_to_pyfftw(direction),
             flags=flags, planning_timelimit=planning_timelimit,
             threads=threads, axes=axes)
     else:
